@@ -998,6 +998,10 @@ func (e *Engine) evalSpecCall(env *specEnv, n *ast.CallExpr) specVal {
 	case "cstring":
 		a := e.evalSpec(env, n.Args[0])
 		return specVal{Value{env.s.selectIn(env.heap, "cgo.cstring", SStr, []*Term{a.v[0]})}, types.Typ[types.String]}
+	case "istokentext":
+		// the string is a text produced by the lexer (token or node text), not computed from one
+		a := e.evalSpec(env, n.Args[0])
+		return specVal{Value{App("istoktext", SBool, a.v[0])}, boolT}
 	case "filecontent":
 		// the content os.ReadFile(path) returns when it is the k-th effect of the run (k = number of
 		// file-system / stdout effects before the read)
